@@ -155,7 +155,7 @@ def _native(n, b, p, mdi, values, tscale):
         det.fit(X)
         out = det.predict(X)
         sc = det.transform_scores(X)
-        return out, np.asarray(sc.values, dtype=float), float(det.threshold_), det._change_score.requested_
+        return out, np.asarray(sc.values, dtype=float), float(det.threshold_), getattr(getattr(det, "_change_score", None), "requested_", [])
 
 
 def _witness(eng, acc, n, b, p, mdi, cpts, sv, cap=50):
